@@ -22,6 +22,7 @@ import argparse
 import ast
 import json
 import os
+import re
 import sys
 from decimal import Decimal
 from fractions import Fraction
@@ -53,7 +54,8 @@ ROUNDINGS = {"ROUND_CEILING": "ceiling", "ROUND_FLOOR": "floor", "ROUND_HALF_UP"
 
 # type tags: Dec ODec S OS B Int OInt Map OMap NoneT Unit, ("Dict", T), ("List", T)
 LEAN_TYPE = {"Dec": "Rat", "ODec": "Option Rat", "S": "Str", "OS": "Option Str", "B": "Bool", "Int": "Int",
-             "OInt": "Option Int", "Map": "List (Str × Str)", "OMap": "Option (List (Str × Str))", "Unit": "Unit"}
+             "OInt": "Option Int", "Map": "List (Str × Str)", "OMap": "Option (List (Str × Str))", "Unit": "Unit",
+             "J": "Py.J"}
 
 
 def lean_type(t):
@@ -81,6 +83,7 @@ class ClassTranslator:
         self.methods = {n.name: n for n in self.cls.body if isinstance(n, ast.FunctionDef)}
         self.funcs = {n.name: n for n in tree.body if isinstance(n, ast.FunctionDef)}
         self.tmp = 0
+        self.closure_mut = {}
         self.attr_types = {}
         self.sigs = {}      # method -> dict(mutates, ret, params)
         self.fsigs = {}
@@ -223,6 +226,17 @@ class ClassTranslator:
     def coerce(self, term, ty, target):
         if ty == target:
             return term
+        if target == "J":
+            if ty == "S":
+                return "(Py.J.str %s)" % paren(term)
+            if ty == "Dec":
+                return "(Py.J.num %s)" % paren(term)
+            if ty == "OS":
+                return "(match %s with | some x => Py.J.str x | none => Py.J.null)" % term
+            if ty == "ODec":
+                return "(match %s with | some x => Py.J.num x | none => Py.J.null)" % term
+            if ty == "NoneT":
+                return "Py.J.null"
         if target == "ODec" and ty == "Dec":
             return "(some %s)" % paren(term)
         if target == "OS" and ty == "S":
@@ -392,9 +406,9 @@ class ClassTranslator:
                 sl = node.slice
                 p, t, ty = self.ex(node.value, env)
                 pre += p
-                if ty == "S" and sl.upper is None and sl.step is None and isinstance(sl.lower, ast.Constant) \
-                        and isinstance(sl.lower.value, int) and sl.lower.value >= 0:
-                    return pre, "(List.drop %d %s)" % (sl.lower.value, t), "S"
+                if (ty == "S" or (isinstance(ty, tuple) and ty[0] == "List")) and sl.upper is None and sl.step is None \
+                        and isinstance(sl.lower, ast.Constant) and isinstance(sl.lower.value, int) and sl.lower.value >= 0:
+                    return pre, "(List.drop %d %s)" % (sl.lower.value, t), ty
                 raise Unsupported("slice")
             p, t, ty = self.ex(node.value, env)
             pre += p
@@ -420,6 +434,14 @@ class ClassTranslator:
             return term
         if ty == "B":
             return "(%s = true)" % term
+        if isinstance(ty, tuple) and ty[0] == "List":
+            return "(%s ≠ [])" % term
+        if ty == "ODec":
+            return "(%s ≠ none ∧ %s ≠ some 0)" % (term, term)
+        if ty == "Dec":
+            return "(%s ≠ 0)" % term
+        if ty == "S":
+            return "(%s ≠ [])" % term
         raise Unsupported("truth value of type %s" % (ty,))
 
     def compare(self, left, op, right, env):
@@ -512,9 +534,64 @@ class ClassTranslator:
                 env2 = dict(env)
                 env2[var] = yi[1]
                 pe, te, ye = self.ex(g.elt, env2)
+                if pe and all(l.startswith("let ") and "← Py.req self." in l and not re.search(r"(?<![\w.])%s(?![\w])" % re.escape(mangle(var)), l.split("←")[1]) for l in pe):
+                    pre += pe       # the attribute is read once; it does not depend on the loop variable
+                    pe = []
                 if pe:
                     raise Unsupported("effectful comprehension element")
                 return pre, "(List.%s %s (fun %s => decide %s))" % (f.id, paren(ti), mangle(var), self.as_prop(te, ye)), "B"
+            if f.id == "float" and len(node.args) == 1 and not node.keywords:
+                # float(Decimal): the scores are one-decimal values, for which the conversion is exact (C09 / C19)
+                p, t, ty = self.ex(node.args[0], env)
+                pre += p
+                if ty not in ("Dec", "ODec"):
+                    raise Unsupported("float(%s)" % (ty,))
+                return pre, self.num(pre, t, ty), "Dec"
+            if f.id == "str" and len(node.args) == 1 and not node.keywords:
+                p, t, ty = self.ex(node.args[0], env)
+                pre += p
+                if ty == "OInt":
+                    return pre, "(Py.strOInt %s)" % t, "S"
+                if ty == "Int":
+                    return pre, "(Py.strOInt (some %s))" % t, "S"
+                if ty == "S":
+                    return pre, t, "S"
+                raise Unsupported("str(%s)" % (ty,))
+            if f.id == "OrderedDict" and len(node.args) == 1 and not node.keywords:
+                a = node.args[0]
+                if isinstance(a, ast.List) and all(isinstance(e, ast.Tuple) and len(e.elts) == 2 for e in a.elts):
+                    items = []
+                    for e in a.elts:
+                        pk, tk, yk = self.ex(e.elts[0], env)
+                        pv, tv, yv = self.ex(e.elts[1], env)
+                        pre += pk + pv
+                        if yk != "S":
+                            raise Unsupported("OrderedDict key type")
+                        items.append("(%s, %s)" % (tk, self.coerce(tv, yv, "J")))
+                    return pre, "([%s] : List (Str × Py.J))" % ", ".join(items), ("Dict", "J")
+                if isinstance(a, ast.Call) and isinstance(a.func, ast.Name) and a.func.id == "sorted" and len(a.args) == 1 \
+                        and isinstance(a.args[0], ast.Call) and isinstance(a.args[0].func, ast.Attribute) \
+                        and a.args[0].func.attr == "items" and not a.args[0].args:
+                    p, t, ty = self.ex(a.args[0].func.value, env)
+                    pre += p
+                    if ty != ("Dict", "J"):
+                        raise Unsupported("sorted items of %s" % (ty,))
+                    return pre, "(Py.sortedItems %s)" % t, ty
+                raise Unsupported("OrderedDict(...) form")
+            if f.id in env and isinstance(env[f.id], tuple) and env[f.id][0] == "Fn":
+                _, kind, ptypes, ret = env[f.id]
+                if kind != "pure":
+                    raise Unsupported("closure %s used as an expression" % f.id)
+                args = []
+                for a, pt in zip(node.args, ptypes):
+                    p, t, ty = self.ex(a, env)
+                    pre += p
+                    if ty != pt:
+                        raise Unsupported("argument type %s for local function %s" % (ty, f.id))
+                    args.append(paren(t))
+                v = self.fresh()
+                pre.append("let %s ← %s %s" % (v, mangle(f.id), " ".join(args)))
+                return pre, v, ret
             if f.id == "tuple" and len(node.args) == 1 and not node.keywords:
                 p, t, ty = self.ex(node.args[0], env)
                 if not (isinstance(ty, tuple) and ty[0] == "List"):
@@ -573,6 +650,35 @@ class ClassTranslator:
                 if ot is None:
                     raise Unsupported(".get without default on %s" % (vt,))
                 return pre, "(Py.get? %s %s)" % (paren(tk), paren(t)), ot
+            if f.attr == "upper" and not node.args:
+                p, t, ty = self.ex(f.value, env)
+                pre += p
+                if ty != "S":
+                    raise Unsupported("upper of %s" % (ty,))
+                return pre, "(Py.upper %s)" % t, "S"
+            if f.attr == "replace" and len(node.args) == 2 and all(
+                    isinstance(a, ast.Constant) and isinstance(a.value, str) and len(a.value) == 1 for a in node.args):
+                p, t, ty = self.ex(f.value, env)
+                pre += p
+                if ty != "S":
+                    raise Unsupported("replace on %s" % (ty,))
+                return pre, "(replaceChar %s %s %s)" % (lean_char(node.args[0].value), lean_char(node.args[1].value), t), "S"
+            if f.attr in ("startswith", "endswith", "split") and len(node.args) == 1 and not node.keywords \
+                    and isinstance(node.args[0], ast.Constant) and isinstance(node.args[0].value, str) and node.args[0].value:
+                p, t, ty = self.ex(f.value, env)
+                pre += p
+                if ty != "S":
+                    raise Unsupported("%s on %s" % (f.attr, ty))
+                lit = node.args[0].value
+                if f.attr == "startswith":
+                    return pre, "(startsWith %s %s = true)" % (lean_str(lit), paren(t)), "P"
+                if f.attr == "endswith":
+                    if len(lit) == 1:
+                        return pre, "(endsWithChar %s %s = true)" % (lean_char(lit), paren(t)), "P"
+                    return pre, "(Py.endsWith %s %s = true)" % (lean_str(lit), paren(t)), "P"
+                if len(lit) != 1:
+                    raise Unsupported("split on a longer separator")
+                return pre, "(splitOn %s %s)" % (lean_char(lit), paren(t)), ("List", "S")
             if f.attr == "copy" and isinstance(f.value, ast.Name) and f.value.id == "copy" and len(node.args) == 1:
                 return self.ex(node.args[0], env)
             if f.attr == "quantize":
@@ -595,7 +701,7 @@ class ClassTranslator:
                 pre += p
                 if ty != ("List", "S"):
                     raise Unsupported("join of %s" % (ty,))
-                return pre, "(join %s %s)" % (repr(f.value.value).replace('"', "'") if f.value.value != "'" else "'\\''", paren(t)), "S"
+                return pre, "(join %s %s)" % (lean_char(f.value.value), paren(t)), "S"
             if f.attr == "format" and isinstance(f.value, ast.Constant) and isinstance(f.value.value, str) and not node.keywords:
                 args = []
                 for a in node.args:
@@ -644,12 +750,19 @@ class ClassTranslator:
                     for t in n.targets:
                         if isinstance(t, ast.Name):
                             add(t.id)
+                        elif isinstance(t, ast.Subscript) and isinstance(t.value, ast.Name):
+                            add(t.value.id)
+                        elif isinstance(t, ast.Tuple) and all(isinstance(x, ast.Name) for x in t.elts):
+                            for x in t.elts:
+                                add(x.id)
                         elif is_self_attr(t) or (isinstance(t, ast.Subscript) and is_self_attr(t.value)):
                             add("self")
                         else:
                             raise Unsupported("assignment target")
                 elif isinstance(n, ast.AugAssign):
                     raise Unsupported("augmented assignment")
+                elif isinstance(n, ast.Call) and isinstance(n.func, ast.Name) and n.func.id in self.closure_mut:
+                    add(self.closure_mut[n.func.id])
                 elif isinstance(n, ast.Call) and isinstance(n.func, ast.Attribute) and n.func.attr == "append" \
                         and isinstance(n.func.value, ast.Name):
                     add(n.func.value.id)
@@ -671,12 +784,16 @@ class ClassTranslator:
                 continue
             if isinstance(st, ast.Return):
                 if st.value is None:
+                    if ctx.get("proc"):
+                        lines.append("pure ()")
+                        return lines, env, True
                     if not ctx["mut"]:
                         raise Unsupported("bare return in a value method")
                     lines.append("pure self")
                 else:
                     if ctx["mut"]:
                         raise Unsupported("value returned from a mutating method")
+                    self.materialize_fns(st.value, env, lines, ctx)
                     p, t, ty = self.ex(st.value, env)
                     lines += p
                     ctx["rets"].append(ty)
@@ -686,21 +803,122 @@ class ClassTranslator:
                     lines.append("pure %s" % t)
                 return lines, env, True
             if isinstance(st, ast.Raise):
-                lines.append("none")
+                lines.append("Py.raise .%s" % exc_of(st.exc))
                 return lines, env, True
             if isinstance(st, ast.Assert):
                 p, t, ty = self.ex(st.test, env)
                 lines += p
-                lines.append("let _ ← (if %s then some () else none)" % self.as_prop(t, ty))
+                lines.append("let _ ← Py.assert %s" % self.as_prop(t, ty))
+                continue
+            if isinstance(st, ast.FunctionDef):
+                # a nested function: emitted at its first use (when the variables it closes over are typed)
+                env[st.name] = ("FnDef", st)
+                for m in ast.walk(st):
+                    if isinstance(m, ast.Assign):
+                        for t in m.targets:
+                            if isinstance(t, ast.Subscript) and isinstance(t.value, ast.Name):
+                                self.closure_mut[st.name] = t.value.id
+                continue
+            if isinstance(st, ast.Assign) and len(st.targets) == 1 and isinstance(st.targets[0], ast.Subscript) \
+                    and isinstance(st.targets[0].value, ast.Name) and st.targets[0].value.id in env \
+                    and env[st.targets[0].value.id] == ("Dict", "J"):
+                d = st.targets[0].value.id
+                pk, tk, yk = self.ex(st.targets[0].slice, env)
+                lines += pk
+                self.materialize_fns(st.value, env, lines, ctx)
+                pv, tv, yv = self.ex(st.value, env)
+                lines += pv
+                if yk != "S":
+                    raise Unsupported("JSON key type")
+                lines.append("let %s : List (Str × Py.J) := Py.setitem %s %s %s" % (mangle(d), paren(tk), self.coerce(tv, yv, "J"), mangle(d)))
+                continue
+            if isinstance(st, ast.Expr) and isinstance(st.value, ast.Call) and isinstance(st.value.func, ast.Name) \
+                    and st.value.func.id in env and isinstance(env[st.value.func.id], tuple) \
+                    and env[st.value.func.id][0] in ("FnDef", "Fn"):
+                self.materialize_fns(st.value, env, lines, ctx)
+                _, kind, ptypes, ret = env[st.value.func.id]
+                if kind == "pure":
+                    raise Unsupported("pure local function called as a statement")
+                args = []
+                for a, pt in zip(st.value.args, ptypes):
+                    p, t, ty = self.ex(a, env)
+                    lines += p
+                    if ty != pt:
+                        raise Unsupported("argument type for closure")
+                    args.append(paren(t))
+                lines.append("let %s ← %s %s %s" % (mangle(kind), mangle(st.value.func.id), mangle(kind), " ".join(args)))
+                continue
+            if isinstance(st, ast.Try):
+                if len(st.handlers) != 1 or st.orelse or st.finalbody or has_return(st) \
+                        or not isinstance(st.handlers[0].type, ast.Name) or st.handlers[0].name:
+                    raise Unsupported("try-statement shape")
+                cls = PY_EXC.get(st.handlers[0].type.id)
+                if cls is None:
+                    raise Unsupported("except %s" % st.handlers[0].type.id)
+                vs = self.assigned(st.body + st.handlers[0].body)
+                used_later = {n.id for r in rest for n in ast.walk(r) if isinstance(n, ast.Name)}
+                save = self.tmp
+                _, eb, tb = self.blk(st.body, env, ctx)
+                _, eh, th = self.blk(st.handlers[0].body, env, ctx)
+                self.tmp = save
+                keep = []
+                for v in vs:
+                    if v == "self":
+                        keep.append(v)
+                        continue
+                    tys = [e[v] for e, term in ((eb, tb), (eh, th)) if not term and v in e]
+                    n_live = len([1 for term in (tb, th) if not term])
+                    if len(tys) != n_live:
+                        if v in env:
+                            tys.append(env[v])
+                        elif v not in used_later:
+                            continue
+                        else:
+                            raise Unsupported("variable %s is not assigned on every path of the try" % v)
+                    if len(set(tys)) > 1:
+                        raise Unsupported("try gives %s several types" % v)
+                    if tys:
+                        keep.append(v)
+                outs = []
+                for body in (st.body, st.handlers[0].body):
+                    ls, e, term = self.blk(body, env, ctx)
+                    if not term:
+                        ls = ls + ["pure %s" % tuple_pat([mangle(v) for v in keep])]
+                    outs.append(ls)
+                for v in keep:
+                    if v != "self":
+                        env[v] = eb.get(v, eh.get(v, env.get(v)))
+                lines.append("let %s ← Py.tryExcept (do\n%s) .%s (do\n%s)" % (
+                    tuple_pat([mangle(v) for v in keep]), ind(outs[0], 2), cls, ind(outs[1], 2)))
+                continue
+            if isinstance(st, ast.Assign) and len(st.targets) == 1 and isinstance(st.targets[0], ast.Tuple):
+                names = st.targets[0].elts
+                if len(names) not in (2, 3) or not all(isinstance(n, ast.Name) for n in names):
+                    raise Unsupported("unpacking shape")
+                p, t, ty = self.ex(st.value, env)
+                lines += p
+                if not (isinstance(ty, tuple) and ty[0] == "List"):
+                    raise Unsupported("unpacking of %s" % (ty,))
+                lines.append("let (%s) ← Py.unpack%d %s" % (", ".join(mangle(n.id) for n in names), len(names), paren(t)))
+                for n in names:
+                    env[n.id] = ty[1]
                 continue
             if isinstance(st, ast.Assign):
                 if len(st.targets) != 1:
                     raise Unsupported("multiple targets")
                 tg = st.targets[0]
+                if is_self_attr(tg) and self.attr_types.get(tg.attr) == "Skip":
+                    continue
+                if is_self_attr(tg) and self.attr_types.get(tg.attr) in ("Map", "OMap") and isinstance(st.value, ast.Dict) \
+                        and not st.value.keys:
+                    lines.append("let self : Self := { self with %s := %s }" % (
+                        mangle(tg.attr), "[]" if self.attr_types[tg.attr] == "Map" else "(some [])"))
+                    continue
                 if isinstance(tg, ast.Name) and isinstance(st.value, ast.List) and not st.value.elts:
                     lines.append("let %s : List Str := []" % mangle(tg.id))
                     env[tg.id] = ("List", "S")
                     continue
+                self.materialize_fns(st.value, env, lines, ctx)
                 p, t, ty = self.ex(st.value, env)
                 lines += p
                 if isinstance(tg, ast.Name):
@@ -713,6 +931,9 @@ class ClassTranslator:
                 elif is_self_attr(tg):
                     at = self.attr_types.get(tg.attr)
                     if at == "Skip":
+                        continue
+                    if at in ("Map", "OMap") and isinstance(st.value, ast.Dict) and not st.value.keys:
+                        lines.append("let self : Self := { self with %s := %s }" % (mangle(tg.attr), "[]" if at == "Map" else "(some [])"))
                         continue
                     if at in (None, "Unknown"):
                         raise Unsupported("attribute self.%s of unknown type" % tg.attr)
@@ -742,10 +963,12 @@ class ClassTranslator:
                 c = st.value
                 if isinstance(c.func, ast.Attribute) and is_self(c.func.value) and c.func.attr in self.sigs:
                     sig = self.sigs[c.func.attr]
-                    if not sig["mutates"]:
-                        raise Unsupported("value method called as a statement")
                     if sig["ret"] is None:
                         raise Unsupported("method %s not translated" % c.func.attr)
+                    if not sig["mutates"]:
+                        args = self.bind_args(c, sig, env, lines)
+                        lines.append(("let _ ← %s self %s" % (mangle(c.func.attr), " ".join(args))).rstrip())
+                        continue
                     args = self.bind_args(c, sig, env, lines)
                     lines.append(("let self ← %s self %s" % (mangle(c.func.attr), " ".join(args))).rstrip())
                     continue
@@ -840,9 +1063,61 @@ class ClassTranslator:
             raise Unsupported("statement %s" % type(st).__name__)
         return lines, env, False
 
+    def materialize_fns(self, node, env, lines, ctx):
+        """emit the nested functions `node` calls that have not been emitted yet (and, first, the ones THEY call)"""
+        for n in ast.walk(node):
+            if isinstance(n, ast.Call) and isinstance(n.func, ast.Name) and isinstance(env.get(n.func.id), tuple) \
+                    and env[n.func.id][0] == "FnDef":
+                fn = env[n.func.id][1]
+                for b in fn.body:
+                    self.materialize_fns(b, env, lines, ctx)
+                ptypes = []
+                fenv = dict(env)
+                for a in fn.args.args:
+                    pt = self.param_types.get(a.arg)
+                    if pt is None:
+                        raise Unsupported("parameter %s of nested function %s" % (a.arg, fn.name))
+                    ptypes.append(pt)
+                    fenv[a.arg] = pt
+                # which outer local does it assign into (by subscript)?  at most one, of JSON-dict type
+                muts = []
+                for m in ast.walk(fn):
+                    if isinstance(m, ast.Assign):
+                        for t in m.targets:
+                            if isinstance(t, ast.Subscript) and isinstance(t.value, ast.Name) and t.value.id not in muts:
+                                muts.append(t.value.id)
+                            elif isinstance(t, ast.Name) and t.id in env and not isinstance(env[t.id], tuple):
+                                pass
+                params = " ".join("(%s : %s)" % (mangle(a.arg), lean_type(pt)) for a, pt in zip(fn.args.args, ptypes))
+                save = self.tmp
+                if not muts:
+                    c2 = {"mut": False, "rets": []}
+                    body, _, term = self.blk(fn.body, fenv, c2)
+                    if not term or len(set(c2["rets"])) != 1:
+                        raise Unsupported("nested function %s: returns %s" % (fn.name, set(c2["rets"])))
+                    ret = c2["rets"][0]
+                    lines.append("let %s : %s → Py.M %s := fun %s => (do\n%s)" % (
+                        mangle(fn.name), " → ".join(paren(lean_type(pt)) for pt in ptypes), paren(lean_type(ret)),
+                        " ".join(mangle(a.arg) for a in fn.args.args), ind(body, 2)))
+                    env[fn.name] = ("Fn", "pure", ptypes, ret)
+                elif len(muts) == 1 and env.get(muts[0]) == ("Dict", "J"):
+                    d = muts[0]
+                    c2 = {"mut": False, "rets": [], "proc": True}
+                    body, _, term = self.blk(fn.body, fenv, c2)
+                    if term:
+                        raise Unsupported("closure %s returns" % fn.name)
+                    lines.append("let %s : List (Str × Py.J) → %s → Py.M (List (Str × Py.J)) := fun %s %s => (do\n%s)" % (
+                        mangle(fn.name), " → ".join(paren(lean_type(pt)) for pt in ptypes), mangle(d),
+                        " ".join(mangle(a.arg) for a in fn.args.args), ind(body + ["pure %s" % mangle(d)], 2)))
+                    env[fn.name] = ("Fn", d, ptypes, "Unit")
+                else:
+                    raise Unsupported("nested function %s assigns into %s" % (fn.name, muts))
+
     def finish(self, lines, ctx):
         if ctx["mut"]:
             return lines + ["pure self"]
+        if ctx.get("proc"):
+            return lines + ["pure ()"]
         raise Unsupported("value method may fall off its end")
 
     # ---------------------------------------------------------------- definitions
@@ -865,7 +1140,7 @@ class ClassTranslator:
         ret = tys.pop()
         sig["ret"] = ret
         params = " ".join("(%s : %s)" % (mangle(pn), lean_type(pt)) for pn, pt, _ in sig["params"])
-        return "def %s %s : Option %s := do\n%s\n" % (mangle(name), params, paren(lean_type(ret)), ind(lines, 1))
+        return "def %s %s : Py.M %s := do\n%s\n" % (mangle(name), params, paren(lean_type(ret)), ind(lines, 1))
 
     def emit_method(self, name, body=None, lean_name=None):
         fn = self.methods[name]
@@ -878,7 +1153,15 @@ class ClassTranslator:
         ctx = {"mut": sig["mutates"], "rets": []}
         self.tmp = 0
         stmts = fn.body if body is None else body
-        if not sig["mutates"]:
+        if not sig["mutates"] and not any(isinstance(n, ast.Return) and n.value is not None for n in ast.walk(fn)):
+            # a procedure: reads the object, may raise, returns nothing
+            ctx["proc"] = True
+            lines, _, term = self.blk(stmts, env, ctx)
+            if not term:
+                lines = self.finish(lines, ctx)
+            ret = "Unit"
+            rt = "Py.M Unit"
+        elif not sig["mutates"]:
             # a value method whose returns mix T and None gets the optional type
             kinds = set()
             for n in ast.walk(fn):
@@ -902,13 +1185,13 @@ class ClassTranslator:
             self.tmp = 0
             lines, _, _ = self.blk(stmts, env, ctx)
             ret = want
-            rt = "Option %s" % paren(lean_type(ret))
+            rt = "Py.M %s" % paren(lean_type(ret))
         else:
             lines, _, term = self.blk(stmts, env, ctx)
             if not term:
                 lines = self.finish(lines, ctx)
             ret = "Self"
-            rt = "Option Self"
+            rt = "Py.M Self"
         if body is None:
             sig["ret"] = ret
         params = " ".join("(%s : %s)" % (mangle(pn), lean_type(pt)) for pn, pt, _ in sig["params"])
@@ -920,7 +1203,7 @@ class ClassTranslator:
             if t in ("Skip", "Unknown"):
                 continue
             fields.append("  %s : %s" % (mangle(a), lean_type(t)))
-        return "structure Self where\n" + "\n".join(fields) + "\n"
+        return "structure Self where\n" + "\n".join(fields) + "\n  deriving Inhabited\n"
 
     def init_self(self):
         """an object as `__init__` leaves it before `parse_vector()`, with the parsed metric dict put in"""
@@ -971,6 +1254,26 @@ class ClassTranslator:
         return out
 
 
+EXC_SUFFIX = [("RHMalformedError", "rhMalformed"), ("RHScoreDoesNotMatch", "rhMismatch"), ("MalformedError", "malformed"),
+              ("MandatoryError", "mandatory")]
+PY_EXC = {"KeyError": "keyError", "TypeError": "typeError", "ValueError": "valueError", "IndexError": "indexError",
+          "AssertionError": "assertionError"}
+
+
+def exc_of(node):
+    """constructor of `Py.Exc` for the class a `raise` names (arguments - message texts - are not modelled)"""
+    if isinstance(node, ast.Call):
+        node = node.func
+    if isinstance(node, ast.Name):
+        for suf, c in EXC_SUFFIX:
+            if node.id.startswith("CVSS") and node.id.endswith(suf):
+                return c
+        return PY_EXC.get(node.id, "other")
+    if node is None:
+        raise Unsupported("bare raise")
+    return "other"
+
+
 def is_self(n):
     return isinstance(n, ast.Name) and n.id == "self"
 
@@ -996,6 +1299,16 @@ def unify(tys):
     if ts <= {"S", "OS"}:
         return "OS"
     raise Unsupported("branches give a variable the types %s" % (ts,))
+
+
+def lean_char(c):
+    if c == "'":
+        return "'\\''"
+    if c == "\\":
+        return "'\\\\'"
+    if 32 <= ord(c) < 127:
+        return "'%s'" % c
+    return "(Char.ofNat %d)" % ord(c)
 
 
 def tuple_pat(vs):
@@ -1025,7 +1338,8 @@ open Cvss
 """
 
 
-def translate(repo, pyfile, cls, tables_ns, out_ns, consts, param_types, func_names, method_names, tail_after, extra=None):
+def translate(repo, pyfile, cls, tables_ns, out_ns, consts, param_types, func_names, method_names, tail_after, extra=None,
+              whole_init=False):
     src = open(os.path.join(repo, "cvss", pyfile), encoding="utf-8").read()
     tree = ast.parse(src)
     tr = ClassTranslator(tree, cls, tables_ns, consts, param_types, method_names, func_names)
@@ -1058,6 +1372,14 @@ def translate(repo, pyfile, cls, tables_ns, out_ns, consts, param_types, func_na
             done.append("init_tail")
         except (Unsupported, KeyError, AttributeError, IndexError, TypeError, ValueError) as ex:
             failed.append({"name": "init_tail", "error": "%s: %s" % (type(ex).__name__, ex)})
+    if whole_init:
+        try:
+            parts.append("/-- `__init__` as written -/\n" + tr.emit_method("__init__", body=tr.methods["__init__"].body, lean_name="init"))
+            parts.append("/-- `CVSSn(vector)`: a fresh object run through `__init__` -/\n"
+                         "def construct (vector : Str) : Py.M Self := init default vector\n")
+            done.append("__init__")
+        except (Unsupported, KeyError, AttributeError, IndexError, TypeError, ValueError) as ex:
+            failed.append({"name": "__init__", "error": "%s: %s" % (type(ex).__name__, ex)})
     if extra:
         for nm, fn in extra:
             try:
@@ -1118,39 +1440,43 @@ def gen_all(repo, out):
     jobs = [
         ("Code3", "cvss3.py", "CVSS3", "V3",
          {"METRICS_VALUES": ("Gen.V3.values", D2), "METRICS_VALUE_NAMES": ("Gen.V3.valueNames", N2),
-          "METRICS_ABBREVIATIONS": ("Gen.V3.abbrs", ("Dict", "S")),
+          "METRICS_ABBREVIATIONS": ("Gen.V3.abbrs", ("Dict", "S")), "METRICS_ABBREVIATIONS_JSON": ("Gen.V3.jsonKeys", ("Dict", "S")),
           "TEMPORAL_METRICS": ("Gen.V3.temporal", LS), "ENVIRONMENTAL_METRICS": ("Gen.V3.environmental", LS),
           "METRICS_MANDATORY": ("Gen.V3.mandatory", LS)},
-         {"abbreviation": "S", "value": "Dec", "vector": "S", "output_prefix": "B"},
+         {"abbreviation": "S", "value": "Dec", "vector": "S", "output_prefix": "B", "text": "S", "metric": "S", "sort": "B",
+          "minimal": "B"},
          ["round_up"],
-         ["handle_scope", "add_missing_optional", "get_value", "get_value_description", "compute_isc_base", "compute_isc",
+         ["parse_vector", "check_mandatory", "handle_scope", "add_missing_optional", "get_value", "get_value_description", "compute_isc_base", "compute_isc",
           "compute_esc", "compute_base_score", "compute_temporal_score", "compute_modified_isc_base",
           "compute_modified_isc_30", "compute_modified_isc", "compute_modified_esc", "compute_environmental_score",
-          "clean_vector", "severities", "temporal_vector", "environmental_vector"],
+          "clean_vector", "severities", "temporal_vector", "environmental_vector", "as_json"],
          "check_mandatory", None),
         ("Code2", "cvss2.py", "CVSS2", "V2",
          {"METRICS_VALUES": ("Gen.V2.values", D2), "METRICS_VALUE_NAMES": ("Gen.V2.valueNames", N2),
-          "METRICS_ABBREVIATIONS": ("Gen.V2.abbrs", ("Dict", "S")),
+          "METRICS_ABBREVIATIONS": ("Gen.V2.abbrs", ("Dict", "S")), "METRICS_ABBREVIATIONS_JSON": ("Gen.V2.jsonKeys", ("Dict", "S")),
           "TEMPORAL_METRICS": ("Gen.V2.temporal", LS), "ENVIRONMENTAL_METRICS": ("Gen.V2.environmental", LS),
           "METRICS_MANDATORY": ("Gen.V2.mandatory", LS)},
-         {"abbreviation": "S", "value": "Dec", "vector": "S"},
+         {"abbreviation": "S", "value": "Dec", "vector": "S", "text": "S", "metric": "S", "sort": "B", "minimal": "B"},
          ["round_to_1_decimal"],
-         ["get_value", "get_value_description", "impact_equation", "adjusted_impact_equation", "base_score_equation",
+         ["parse_vector", "check_mandatory", "get_value", "get_value_description", "impact_equation", "adjusted_impact_equation", "base_score_equation",
           "compute_base_score", "temporal_score_equation", "compute_temporal_score", "compute_environmental_score",
-          "clean_vector", "severities", "temporal_vector", "environmental_vector"],
+          "clean_vector", "severities", "temporal_vector", "environmental_vector", "as_json"],
          "check_mandatory", None),
         ("Code4", "cvss4.py", "CVSS4", "V4",
          {"METRICS_VALUE_NAMES": ("Gen.V4.valueNames", N2), "METRICS_MANDATORY": ("Gen.V4.mandatory", LS),
-          "METRICS_ABBREVIATIONS": ("Gen.V4.abbrs", ("Dict", "S"))},
-         {"metric": "S", "vector": "S", "abbreviation": "S", "output_prefix": "B"},
+          "METRICS_ABBREVIATIONS": ("Gen.V4.abbrs", ("Dict", "S")), "METRICS_ABBREVIATIONS_JSON": ("Gen.V4.jsonKeys", ("Dict", "S")),
+          "METRICS": ("Gen.V4.metricsOrder", LS)},
+         {"metric": "S", "vector": "S", "abbreviation": "S", "output_prefix": "B", "text": "S", "sort": "B", "minimal": "B"},
          [],
-         ["m", "macroVector", "get_value_description", "clean_vector"],
+         ["parse_vector", "check_mandatory", "add_missing_optional", "m", "macroVector", "get_value_description", "clean_vector",
+          "compute_severity", "as_json"],
          None, [("levels", v4_levels)]),
     ]
     changed = []
     for out_ns, pyfile, cls, tns, consts, ptypes, funcs, methods, tail, extra in jobs:
         try:
-            text, done, failed = translate(repo, pyfile, cls, tns, out_ns, consts, ptypes, funcs, methods, tail, extra)
+            text, done, failed = translate(repo, pyfile, cls, tns, out_ns, consts, ptypes, funcs, methods, tail, extra,
+                                           whole_init=(out_ns != "Code4"))
         except Exception as ex:  # the file cannot be read / parsed at all
             text, done, failed = None, [], [{"name": "*", "error": "%s: %s" % (type(ex).__name__, ex)}]
         results[out_ns] = {"translated": done, "untranslated": failed}
